@@ -365,3 +365,27 @@ def statement_cut_off_by_bracket_break(replay):
             return True
         l = l.get_next_leaf()
     return False
+
+
+def twenty_nested_blocks(replay):
+    """F54: the program nests 20 or more block statements - if / while / for / try / with, inside one function or at module level - by parso's own
+    count; CPython allows 20 nested loop / try / with blocks (the 21st is refused) and does not count `if` at all"""
+    import parso
+    text = _text(replay)
+    v = replay.get('version') or replay.get('case', {}).get('version') or '3.10'
+    m = parso.load_grammar(version=v).parse(text)
+    blocks = ('if_stmt', 'while_stmt', 'for_stmt', 'try_stmt', 'with_stmt')
+    best = 0
+    stack = [(m, 0)]
+    while stack:
+        n, d = stack.pop()
+        if not hasattr(n, 'children'):
+            continue
+        if n.type in ('funcdef', 'classdef', 'lambdef'):
+            d = 0
+        if n.type in blocks:
+            d += 1
+            best = max(best, d)
+        for c in n.children:
+            stack.append((c, d))
+    return best >= 20
